@@ -122,6 +122,44 @@ pub fn run(ctx: &mut Ctx) {
         cases.push(c);
         streams.push(s);
     }
+    // ---- the edge of the supported envelope, implementation only (2-byte shards): both counts in the top power-of-two
+    //      bracket, the largest single-chunk configurations, one side at the field size, just outside on each side.
+    //      The one-shot functions pre-check with `supports`, the streaming constructors validate on their own:
+    //      the two must agree there too.
+    let pool: [(usize, usize); 16] = [
+        (16385, 16385), (20000, 17000), (17000, 20000), (32768, 32768), (32769, 32768), (32768, 32769), (4096, 61440), (61440, 4096),
+        (61441, 4096), (4096, 61441), (1, 65535), (65535, 1), (65536, 1), (1, 65536), (40000, 30000), (30000, 32768),
+    ];
+    let n_edge = if ctx.thorough() { pool.len() } else { 6 };
+    let mut picks: Vec<(usize, usize)> = pool.to_vec();
+    ctx.rng.shuffle(&mut picks);
+    // the same-bracket configurations are the ones a hand-written `supports` gets wrong most easily: always in
+    let mut chosen: Vec<(usize, usize)> = vec![pool[ctx.rng.below(4)]];
+    chosen.extend(picks.into_iter().take(n_edge - 1));
+    for (j, (k, r)) in chosen.into_iter().enumerate() {
+        let mut c = Case::new(&format!("oneshot-edge-{}", j));
+        c.with_model = false;
+        let mut s = Case::new("streaming");
+        s.with_model = false;
+        let shards: Vec<Vec<u8>> = (0..k).map(|_| ctx.rng.bytes(2)).collect();
+        if j % 2 == 0 {
+            c.push(format!("X encode {} {} {}", k, r, shards.iter().map(|x| to_hex(x)).collect::<Vec<_>>().join(",")));
+            s.push(format!("E new rs default {} {} 2", k, r));
+            for sh in &shards { s.push(format!("E add {}", to_hex(sh))); }
+            s.push("E encode".into());
+            ctx.count("oneshot", "encode-envelope-edge");
+        } else {
+            // all originals given, no recovery shard: nothing to restore, but the configuration is validated
+            let o: Vec<String> = shards.iter().enumerate().map(|(i, b)| format!("{}:{}", i, to_hex(b))).collect();
+            c.push(format!("X decode {} {} {} -", k, r, o.join(",")));
+            s.push(format!("D new rs default {} {} 2", k, r));
+            for (i, b) in shards.iter().enumerate() { s.push(format!("D addo {} {}", i, to_hex(b))); }
+            s.push("D decode".into());
+            ctx.count("oneshot", "decode-envelope-edge");
+        }
+        cases.push(c);
+        streams.push(s);
+    }
     let runs = ctx.run_cases(&cases);
     for ((c, s), run) in cases.iter().zip(streams.iter()).zip(runs.iter()) {
         if s.lines.is_empty() {
